@@ -44,7 +44,7 @@ theorem OrdInv_emit_push {k : Nat} (P : Prog) (X : Cfg) (e : Ev) (is : List Inst
 theorem OrdInv_pop {k : Nat} (c1 : Cfg) (e : Int × Nat × Sig) (es : List (Int × Nat × Sig)) (is : List Instr)
     (he : c1.L.activeQ.entries = e :: es)
     (his : Qc k is = (if e.2.2.okReady = true then [e.2.2.line] else []))
-    (hN : NoReadyReentry (.take c1.L.active e.2.2 :: c1.tr))
+    (hN : NoReadyReentry (.take c1.L.active e.2.2 :: c1.tr) ∨ nPre k c1.code = 0)
     (hD : DepthOK k c1) (hP : postFree c1.code) (h : OrdInv k c1) : OrdInv k (push (c1.pop e es) is) := by
   unfold OrdInv ordL at h ⊢
   simp only [push_log, pop_log, push_code, pop_code, Qc_append, his, push_L, push_A, pop_A]
@@ -52,11 +52,24 @@ theorem OrdInv_pop {k : Nat} (c1 : Cfg) (e : Int × Nat × Sig) (es : List (Int 
   rw [hq]
   rw [readyQ_of_activeQ he] at h
   by_cases hs : e.2.2.okReady = true
-  · have := Qc_nil_of_take (c1 := c1) (c2 := c1) hN hs (Or.inl rfl) hD hP rfl
+  · have : Qc k c1.code = [] := by
+      rcases hN with hN | hN
+      · exact Qc_nil_of_take (c1 := c1) (c2 := c1) hN hs (Or.inl rfl) hD hP rfl
+      · exact Qc_eq_nil hN hP
     simp only [hs, if_true, this, List.append_nil, List.nil_append] at h ⊢
     simpa [List.append_assoc] using h
   · simp only [hs] at h ⊢
     simpa using h
+
+/-- the instructions that take a signal from the active queue -/
+def _root_.Simpleline.Instr.isTakeI : Instr → Bool
+  | .getDispatch | .waitStep .. | .procIter _ => true
+  | _ => false
+
+/-- when the next instruction takes a signal, the rest of the code carries no successful `InputReadySignal`
+towards its handler (the static alternative to `NoReadyReentry`) -/
+def TakeQuiet (k : Nat) (c : Cfg) : Prop :=
+  ∀ ins rest, c.code = ins :: rest → ins.isTakeI = true → nPre k rest = 0
 
 macro "ord_close" hf:ident : tactic => `(tactic|
   (simp [OrdInv, ordL, Instr.lines, Instr.pre, Instr.post, readyQ_enqueue, Sig.okReady, Cfg.newSig, Qc_acts,
@@ -70,7 +83,8 @@ theorem ord_step {c0 : Cfg} (P : Prog) (c : Cfg) (hc : cleanCode c.code) (hR : R
     (hD : DepthOK (k0 c0) c) (hPT : PostTop c)
     (hcov : ∀ q ∈ c.L.levels.dropLast, ∀ s ∈ (c.queue q).sigs, s.okReady = false)
     (hI : InputInv c0 c) (hL : LastInv c) (hW : WF c.view) (hlev : levelsOf c.tr = c.L.levels)
-    (hN1 : NoReadyCovered (final (step P c)).tr) (hN2 : NoReadyReentry (final (step P c)).tr)
+    (hN1 : NoReadyCovered (final (step P c)).tr)
+    (hN2 : NoReadyReentry (final (step P c)).tr ∨ TakeQuiet (k0 c0) c)
     (hf : OrdInv (k0 c0) c) : OrdInv (k0 c0) (final (step P c)) := by
   by_cases hir : ∃ s rest, c.code = .inputReceived s :: rest
   · obtain ⟨s, rest, hcode⟩ := hir
@@ -117,7 +131,8 @@ theorem ord_step {c0 : Cfg} (P : Prog) (c : Cfg) (hc : cleanCode c.code) (hR : R
       ord_close hf'
     -- getDispatch
     · intro hN
-      refine OrdInv_take _ (fun s => [Instr.processSignal s]) (fun s => ?_) hN hD' hP' ?_
+      refine OrdInv_take _ (fun s => [Instr.processSignal s]) (fun s => ?_) (hN.imp id (fun h => h _ _ hcode rfl))
+        hD' hP' ?_
       · simp [Instr.lines, Instr.pre, Instr.post]
       · ord_close hf'
     -- processSignal: no handler
@@ -158,16 +173,17 @@ theorem ord_step {c0 : Cfg} (P : Prog) (c : Cfg) (hc : cleanCode c.code) (hR : R
       ord_close hf'
     -- waitStep
     · intro hN
-      refine OrdInv_take _ (fun s => [Instr.processSignal s, _]) (fun s => ?_) hN hD' hP' ?_
+      refine OrdInv_take _ (fun s => [Instr.processSignal s, _]) (fun s => ?_)
+        (hN.imp id (fun h => h _ _ hcode rfl)) hD' hP' ?_
       · simp [Instr.lines, Instr.pre, Instr.post]
       · ord_close hf'
     -- procIter
     · intro hN
-      refine OrdInv_pop { c with code := rest } _ _ _ ‹_› ?_ hN hD' hP' ?_
+      refine OrdInv_pop { c with code := rest } _ _ _ ‹_› ?_ (hN.imp id (fun h => h _ _ hcode rfl)) hD' hP' ?_
       · simp [Instr.lines, Instr.pre, Instr.post]
       · ord_close hf'
     · intro hN
-      refine OrdInv_pop { c with code := rest } _ _ _ ‹_› ?_ hN hD' hP' ?_
+      refine OrdInv_pop { c with code := rest } _ _ _ ‹_› ?_ (hN.imp id (fun h => h _ _ hcode rfl)) hD' hP' ?_
       · simp [Instr.lines, Instr.pre, Instr.post]
       · ord_close hf'
     -- newLoop
